@@ -111,7 +111,8 @@ impl Search {
         // Uses a heuristic to determine the maximum time to spend on a move
         #[cfg(rce_verif)]
         crate::verif_hooks::sched_point("search.enter");
-        self.start();
+        // `running` is set when the search is created. It must not be set again here: a stop
+        // that arrives before this thread gets going would be overwritten and lost.
         #[cfg(rce_verif)]
         crate::verif_hooks::sched_point("search.started");
 
@@ -767,23 +768,6 @@ impl Search {
     /// ```
     pub const fn get_nodes(&self) -> NodeCount {
         self.info.nodes
-    }
-
-    /// Sets the `AtomicBool` that is used to determine if the search should continue to true
-    /// Normally called by the search function.
-    ///
-    /// # Example
-    /// ```
-    /// let board = BoardBuilder::construct_starting_board().build();
-    /// let evaluator = SimpleEvaluator::new();
-    /// let mut search = Search::new(&board, &evaluator, None);
-    /// search.stop();
-    /// assert_eq!(search.is_running(), false);
-    /// search.start();
-    /// assert_eq!(search.is_running(), true);
-    /// ```
-    fn start(&self) {
-        self.running.store(true, Ordering::Relaxed);
     }
 
     /// Sets the `AtomicBool` that is used to determine if the search should continue to false
